@@ -75,8 +75,9 @@ RULES = {
            'point, options, outcome, artefact set) shapes',
 }
 ASSUMPTIONS = {
-    'C04': ['line splitting follows str.splitlines on both sides; cases that '
-            'differ only in the number of trailing empty lines abstain',
+    'C04': ['lines end at \\n, \\r\\n and \\r only (form feed, vertical tab, '
+            'NEL, U+2028 are line content); cases that differ only in the '
+            'number of trailing empty lines abstain',
             'ignore-patterns come from a fixed family over disjoint token '
             'alphabets; empty/overlapping matches abstain',
             'an exception other than AssertionError when the model says FAIL '
@@ -412,7 +413,8 @@ def gen_c15(r, tier):
                 op['client'] = prev['client']
         ops.append(op)
     return {'config': {'clients': clients,
-                       'tmp_dir_configured': r.chance(0.75)}, 'ops': ops}
+                       'tmp_dir_configured': r.chance(0.75),
+                       'tmp_dir_late': r.chance(0.25)}, 'ops': ops}
 
 
 def gen_plan(prop, r, tier, run):
@@ -545,7 +547,17 @@ def execute(plan):
         ctx.seam = seam
         try:
             with seam:
+                late = (plan['config'].get('tmp_dir_late')
+                        and plan['config'].get('tmp_dir_configured', True))
+                if late:
+                    # the configured directory is only created by the
+                    # suite's set-up, after the test objects are constructed
+                    os.rmdir(W.path('fail'))
                 build_clients(ctx, plan['config']['clients'])
+                if late:
+                    os.mkdir(W.path('fail'))
+                    ctx.stats['faults'][
+                        'tmp_dir_created_after_construction'] += 1
                 clients_seen = []
                 for op in plan['ops']:
                     if op.get('client') and op['client'] not in clients_seen:
@@ -1261,7 +1273,7 @@ def check_c15(ctx, op, mode, outcome, exc, delta, log, rpaths, apaths,
             # compared as line sequences; the writer joins lines without a
             # final newline, so trailing empty lines are a final-newline
             # difference (noted in DESIGN 6, not failed)
-            ls = t.replace('\r\n', '\n').replace('\r', '\n').splitlines()
+            ls = textcmp.split_lines(t)
             while ls and ls[-1] == '':
                 ls = ls[:-1]
             return ls
@@ -1314,8 +1326,8 @@ def check_c15(ctx, op, mode, outcome, exc, delta, log, rpaths, apaths,
                   '%s / %s' % (W.rel(pa), W.rel(pe)))
         return
     ctx.stats['checks']['post_processed_pairs_checked'] += 1
-    la = read_text_model(pa).splitlines()
-    le = read_text_model(pe).splitlines()
+    la = textcmp.split_lines(read_text_model(pa))
+    le = textcmp.split_lines(read_text_model(pe))
     if la == le:
         violation(ctx, op, 'post-processed-pair-differs',
                   '%s/%s' % (entry, option_tag(opts)),
